@@ -360,6 +360,10 @@ var c04Bodies = map[string]string{
 	"vshow":     `<b style="top: 0" v-show="it == 's1'">{{ it }}</b>`,
 	"vifinner":  `<b v-if="it == 's1'">yes-{{ it }}</b><b v-else>no-{{ it }}</b>`,
 	"tmplvar":   `<template :z="it"></template><b>{{ z }}</b>`,
+	// a <template> of the body that binds the loop's own variables again (one-based numbering,
+	// a decorated item): inside the instance only - after the loop the outer values are back
+	"tmplindex": `<template :i="i + 100"><s>k</s></template><b>{{ it }}</b>`,
+	"tmplitem":  `<template :it="it + '!'"><s>{{ it }}</s></template>`,
 	"include":   `<template include="c.vuego" :p="it"></template>`,
 	"includes":  `<template include="c.vuego" p="q-{{ it }}"></template>`,
 	"slot":      `<template include="s.vuego"><u :title="it">{{ it }}</u></template>`,
@@ -394,6 +398,10 @@ func (c *c04Case) runBody(ctx *core.Ctx) {
 		}
 	}
 	body := c04Bodies[c.Body]
+	if c.Body == "tmplindex" && c.Form != "ix" {
+		ctx.Zone("index-rebound-without-index-variable") // (i is the outer variable then: a <template> binding writes through, by design)
+		return
+	}
 	loopExpr := "it in xs"
 	if c.Form == "ix" {
 		loopExpr = "(i, it) in xs"
